@@ -125,6 +125,9 @@ def check(idx: Index, rep: Report, prop: str) -> None:
                 if sid in BASELINE:
                     r.ok(inst, None)
                     continue
+                # the same table as a reviewed site of this file, reached from another function (a helper was extracted,
+                # two functions were merged): the judgments below are still made; only the fall-back "unreviewed" is not
+                moved = any(b[0] == sid[0] and b[2] == sid[2] for b in BASELINE)
                 loc = f"{rel}:{getattr(s.node, 'lineno', f.raw_node.lineno)}"
                 fk = float_keyed(s)
                 if fk is not None:
@@ -151,6 +154,9 @@ def check(idx: Index, rep: Report, prop: str) -> None:
                     if pj:
                         r.fail(inst, Finding(f"{prop}.M1", f.fq, f"cache-key-projection:{','.join(pj)}", f"the memo {s.describe()} hands `{pj[0]}` as a whole to the computation but keeps only `{unparse(s.key)}` of it as the key: two different {pj[0]} with the same projection share one entry", loc))
                         continue
+                if moved and s.kind != "decorator":
+                    r.ok(inst, f"{rel}: {s.describe()} is the table of a reviewed site of this file, used from `{f.qualname}`; key and value judgments hold")
+                    continue
                 r.fail(inst, Finding(f"{prop}.M1", f.fq, "unreviewed-cache" if s.kind != "mark" else "unreviewed-visited-mark", f"new {'memo' if s.kind != 'mark' else 'visited mark'} {s.describe()} in `{f.qualname}`: whether it can go stale (the state it was derived from changes while the entry lives) is not decided", loc))
     rep.extra.setdefault("memo_sites", n_sites)
     from . import alias_rule  # the second history-dependence lint shares the entry point (check.py, runall.py, selftest)
